@@ -514,7 +514,7 @@ def model_check(ctx, thorough):
     ctx.log('MC_Hsaco_asimpl: LoadIsTruth violated as expected (descriptor offsets of the current tree)')
     ctx.cov['as_implemented_model_violates'] = 'LoadIsTruth'
     if thorough:
-        for cfg in ('MC_Hsaco_big.cfg', 'MC_Hsaco_three.cfg'):
+        for cfg in ('MC_Hsaco_noise_big.cfg', 'MC_Hsaco_big.cfg', 'MC_Hsaco_three.cfg'):
             rb = ctx.tlc_expect_ok(['hsaco'], 'MC_Hsaco.tla', cfg, workers=min(vlib.NCPU, 8), timeout=3000, heap='8g')
             ctx.log('%s: %d distinct states, depth %d' % (cfg, rb.distinct, rb.depth))
         ctx.cov['exhaustive'] = True
